@@ -32,6 +32,12 @@ def call_fn_hook(it, fv, args, kwargs):
         return stub(it, args, kwargs)           # an abstract stand-in supplied by a target (e.g. "the wrapped step")
     which = c.pyghost.get(('cbname', fv.e.sexpr()), 'callback')
     ghost_seq_push(c, 'log_' + which, c.to_ref(args[0]) if args else NONE)
+    grows = c.pyghost.get(('callback_may_append_to', which))
+    if grows is not None and c.choose(2, 'a-post-lands-during-the-callback'):
+        # a post made from the callback, or by another thread while it runs, leaves its marker in the step log
+        # (with room left: a step longer than the buffer is the truncation the property states)
+        c.assume(B.seq_len(it, grows) < c.hget(grows, '$maxlen') - 1)
+        B.seq_append(it, grows, c.fresh_ref('marker_of_a_concurrent_post', 'str'))
     return None
 
 
@@ -188,7 +194,12 @@ def _print_spy_loop(ordinal_key):
         log, n = c.ghost['log_live_spy'], c.ghost['log_live_spy_len']
         j = z3.Int('j!ps')
         items = B.seq_items(it, seq)
-        return [('count', n == n0 + k),
+        rs = c.read(c.read(env['self'], 'rtc'), 'spy')
+        e_items, e_len = env['$snap_rs']
+        r_items, r_len = B.seq_items(it, rs), B.seq_len(it, rs)
+        return [('step-log-only-grows', z3.And(r_len >= e_len, z3.ForAll([j], z3.Implies(
+                    z3.And(0 <= j, j < e_len), z3.Select(r_items, j) == z3.Select(e_items, j))))),
+                ('count', n == n0 + k),
                 ('in-order', z3.ForAll([j], z3.Implies(z3.And(0 <= j, j < k),
                                                        z3.Select(log, n0 + j) == z3.Select(items, j)))),
                 ('older-kept', z3.ForAll([j], z3.Implies(z3.And(0 <= j, j < n0),
@@ -198,7 +209,14 @@ def _print_spy_loop(ordinal_key):
         c = it.c
         ghost_seq_init(c, 'log_live_spy')
         env['$snap_spy'] = (c.ghost['log_live_spy_len'], c.ghost['log_live_spy'])
-    spec = LoopSpec(inv, lambda it, env: [], None, 'print-spy')
+        rs = c.read(c.read(env['self'], 'rtc'), 'spy')
+        env['$snap_rs'] = (B.seq_items(it, rs), B.seq_len(it, rs))
+    def mods(it, env):
+        # the callback (or another thread posting to the chart meanwhile) may add markers to the step log
+        c = it.c
+        rs = c.read(c.read(env['self'], 'rtc'), 'spy')
+        return [(rs, '$items'), (rs, '$len')]
+    spec = LoopSpec(inv, mods, None, 'print-spy')
     spec.on_entry = on_entry
     spec.ghost_modifies = ['log_live_spy', 'log_live_spy_len']
     return spec
